@@ -349,11 +349,60 @@ def hostile_suffix_bin(rng):
     return base + struct.pack('<I', L) + b + struct.pack('<I', rng.choice([L, L, L + 1])), s
 
 
+INT_MIN, INT_MAX = -2147483648, 2147483647
+
+
+def hostile_count(rng, true_n):
+    """one count line of the Options block: negative / zero / equal / too large / INT_MIN / INT_MAX"""
+    return rng.choice([-1, -1, -5, -true_n if true_n else -2, 0, true_n, true_n, true_n + 1, true_n + 10, INT_MIN, INT_MAX])
+
+
+def hostile_counts_file(rng, binary):
+    """a file whose Options block carries independently hostile count fields (ncons, nduals, nvars, nprimals), followed
+    by plenty of well-formed numbers, so that a wrongly accepted count shows up as over-delivery.
+    returns (bytes, nvars_true, ncons_true, counts)"""
+    nd = rng.choice([0, 1, 2, 3])
+    nv = rng.choice([0, 1, 2, 4])
+    k = rng.randint(3, 9)
+    opts = [rng.choice([0, 1, 2, 4, 7]) for _ in range(k)]
+    if opts[1] == 3:
+        opts[1] = 1
+    which = rng.sample(range(4), rng.choice([1, 1, 2, 4]))
+    counts = [nd + rng.choice([0, 2]), nd, nv + rng.choice([0, 2]), nv]
+    true = list(counts)
+    for i in which:
+        counts[i] = hostile_count(rng, true[i])
+    extra = rng.choice([0, 5, 40])
+    vals = [float(i + 1) for i in range(nd + nv + extra)]
+    if not binary:
+        b = b'msg\n\nOptions\n%d\n' % k + b''.join(b'%d\n' % o for o in opts) + b''.join(b'%d\n' % c for c in counts)
+        b += b''.join(fmt16(x) + b'\n' for x in vals)
+        if rng.random() < 0.7:
+            b += b'objno 0 0\n'
+        return b, true[2], true[0], counts
+    u32 = lambda x: struct.pack('<I', x & 0xffffffff)
+    ob = b'Options' + b''.join(struct.pack('<i', x) for x in [k] + opts + counts)
+    b = rec(b'binary') + rec(b'msg') + rec(b'') + rec(ob)
+    # dual record: length field either what the reader will compute from the stated count, or what the data really is
+    def vrec(stated, n_data):
+        data = b''.join(struct.pack('<d', float(i + 1)) for i in range(n_data))
+        L = rng.choice([(stated * 8) & 0xffffffff, (stated * 8) & 0xffffffff, len(data), 0])
+        return u32(L) + data + u32(L)
+    b += vrec(counts[1], rng.choice([nd, nd, nd + extra, 0]))
+    b += vrec(counts[3], rng.choice([nv, nv, nv + extra, 0]))
+    if rng.random() < 0.7:
+        b += rec(struct.pack('<ii', 0, 0))
+    b += b''.join(struct.pack('<d', 9.0) for _ in range(rng.choice([0, 0, 40])))
+    return b, true[2], true[0], counts
+
+
 def rand_policy(rng):
     def act():
         r = rng.random()
-        if r < 0.7:
+        if r < 0.4:
             return 'all'
+        if r < 0.7:
+            return 'while'
         if r < 0.85:
             return 'some:%d' % rng.choice([0, 1, 2, 5])
         return 'err:%d:%d' % (rng.choice([0, 1, 2, 50]), rng.choice([2, 3, 4, 5, 6, 7]))
